@@ -32,6 +32,8 @@ def make_thread(c, name, op, slot):
         q = inp.qty('nq%s' % name)
         c.supplied.append(q)
         return Thread(name, op, {'id': target_id(inp, 'tgt%s' % name, n), 'qty': q})
+    if op == 'N':
+        return Thread(name, op, {'n': c.cube.get('calls', 2)})
     raise Unsupported(op)
 
 
@@ -59,6 +61,14 @@ def run_program(cube, monitor_fn=None):
     c.domain.append(S.Ult(tot, S.bv(1 << 64, W)))
     P = Prog()
     P.c, P.threads = c, threads
+    P.gen_counter0 = None
+    if cube.get('arbitrary_generator'):
+        # the id generator starts at an ARBITRARY counter value (any number of earlier calls)
+        P.gen_counter0 = c.inp.var('gen.counter0', 64)
+        g = h.st.mem[h.groot]
+        ci = L.field_index('UuidGenerator', 'counter')
+        h.st.mem[h.groot] = g[:ci] + (P.gen_counter0,) + g[ci + 1:]
+        c.domain.append(S.Ult(P.gen_counter0, S.bv((1 << 64) - 64, 64)))
     P.pre_level = h.level_value()
     P.monitor_obls = []
     mon = None
@@ -243,6 +253,8 @@ def describe_model(P, model):
             s += ' | %s: add %s#%s(%s)' % (t.name, vn, d['id'][-2:], d.get('quantity', d.get('visible_quantity')))
         elif t.op == 'M':
             s += ' | %s: match %d' % (t.name, conc(t.params['q'], model))
+        elif t.op == 'N':
+            s += ' | %s: %d x next()' % (t.name, t.params['n'])
         elif t.op == 'C':
             s += ' | %s: cancel #%s' % (t.name, order_id_str(conc(t.params['id'], model))[-2:])
         else:
@@ -283,13 +295,18 @@ def thread_script(P, model):
         elif t.op == 'M':
             ops.append({'thread': t.name, 'op': 'match', 'quantity': conc(t.params['q'], model),
                         'taker': order_id_str(conc(t.params['taker'], model))})
+        elif t.op == 'N':
+            ops.append({'thread': t.name, 'op': 'next', 'n': t.params['n']})
         elif t.op == 'C':
             ops.append({'thread': t.name, 'op': 'update', 'kind': 'Cancel', 'id': order_id_str(conc(t.params['id'], model))})
         else:
             ops.append({'thread': t.name, 'op': 'update', 'kind': 'UpdateQuantity', 'id': order_id_str(conc(t.params['id'], model)),
                         'quantity': conc(t.params['qty'], model)})
-    return {'kind': 'concurrent', 'price': conc(c.h.P, model), 'namespace': uuid_str(conc(c.h.ns, model)),
-            'setup': state_recipe(c, model), 'threads': ops, 'schedule': schedule_of(P, model)}
+    d = {'kind': 'concurrent', 'price': conc(c.h.P, model), 'namespace': uuid_str(conc(c.h.ns, model)),
+         'setup': state_recipe(c, model), 'threads': ops, 'schedule': schedule_of(P, model)}
+    if getattr(P, 'gen_counter0', None) is not None:
+        d['generator_counter'] = conc(P.gen_counter0, model)
+    return d
 
 
 def predicted(P, model):
@@ -302,6 +319,8 @@ def predicted(P, model):
             out['threads'][t.name] = {'remaining': conc(mr['remaining_quantity'], model),
                                       'transactions': [{'maker': order_id_str(conc(tx['maker_order_id'], model)), 'quantity': conc(tx['quantity'], model)}
                                                        for v, tx in txs if conc(v, model)]}
+        elif t.op == 'N':
+            out['threads'][t.name] = {'ids': [uuid_str(conc(x, model)) for x in t.ret]}
         elif t.op in 'CQ':
             some, none_, got = upd_result(t)
             if conc(some, model):
@@ -389,7 +408,10 @@ def compare_conc(script, pred, nat):
         if 'panic' in r:
             diffs.append('thread %s panicked natively' % name)
             continue
-        if 'transactions' in e:
+        if 'ids' in e:
+            if r.get('ids') != e['ids']:
+                diffs.append('thread %s ids: predicted %s native %s' % (name, e['ids'], r.get('ids')))
+        elif 'transactions' in e:
             m = r.get('match', {})
             got = [{'maker': t['maker'], 'quantity': t['quantity']} for t in m.get('transactions', [])]
             if got != e['transactions'] or m.get('remaining') != e['remaining']:
